@@ -44,7 +44,8 @@ def _child_verify(i):
     eng0 = getattr(res, "engine", None)
     if eng0 is not None:
         ghost_kinds = {g: kind_json(v.kind) for g, v in eng0.entry_state.ghost.items() if hasattr(v, "kind") and v.kind.smt}
-        out["fuzz_job"] = fuzz_job(c, res.fs, schema.SCHEMA, eng0.accessed_param_keys, ghost_kinds, seed, 20)
+        out["fuzz_job"] = fuzz_job(c, res.fs, schema.SCHEMA, eng0.accessed_param_keys, ghost_kinds, seed, 20,
+                                   numeric_keys=eng0.numeric_param_keys)
     for o in res.obligations:
         j = o.to_json()
         if o.status in ("failed",) and o.model is not None:
@@ -99,7 +100,7 @@ def schema_json(schema):
     out = {}
     for cls, sc in schema.items():
         out[cls] = {"bases": sc.get("bases", []), "fields": {f: kind_json(k) for f, k in sc.get("fields", {}).items()},
-                    "nonnull": sc.get("nonnull", [])}
+                    "nonnull": sc.get("nonnull", []), "pools": sc.get("pools", {})}
     return out
 
 
@@ -119,7 +120,7 @@ def source_literals(fs, contract):
     return list(dict.fromkeys(lits))
 
 
-def fuzz_job(c, fs, schema, param_keys, ghost_kinds, seed, budget_s):
+def fuzz_job(c, fs, schema, param_keys, ghost_kinds, seed, budget_s, numeric_keys=()):
     from .kinds import Kind, VNone
     params = {}
     for name, kind in c.params.items():
@@ -129,14 +130,19 @@ def fuzz_job(c, fs, schema, param_keys, ghost_kinds, seed, budget_s):
         if isinstance(kind, Kind):
             params[name] = {"kind": kind_json(kind), "nullable": nullable}
         else:
-            params[name] = {"kind": "none", "nullable": True}
+            from .kinds import concrete, V as _V
+            ok, cv = concrete(kind) if isinstance(kind, (_V, VNone)) else (False, None)
+            if ok and cv is not None:
+                params[name] = {"kind": "const", "value": {"t": type(cv).__name__, "v": cv}}
+            else:
+                params[name] = {"kind": "none", "nullable": True}
     return {
         "repo": repo_path(),
         "contract": {"name": c.name, "target": c.target, "requires": c.requires, "ensures": [list(e) for e in c.ensures],
                      "raises": c.raises, "raises_only_if": c.raises_only_if, "call": native_call(c, fs), "params": params},
         "schema": schema_json(schema), "literals": source_literals(fs, c), "param_keys": sorted(param_keys),
         "stubs": {k: [v[1], kind_json(v[2]), v[3]] for k, v in c.stubs.items()},
-        "ghost": ghost_kinds, "seed": seed, "budget_s": budget_s,
+        "ghost": ghost_kinds, "seed": seed, "budget_s": budget_s, "numeric_keys": sorted(numeric_keys),
     }
 
 
@@ -240,6 +246,8 @@ class PropertyRun:
     def add_e1(self, results, expected):
         known = [k for k in load_json(os.path.join(ROOT, "known_findings.json"), {"findings": []})["findings"]
                  if k.get("property") == self.pid and k.get("status") == "known"]
+        # bounded native searches for all contracts with an unconfirmed failed obligation run concurrently
+        self.prefuzz(results, known_ids={k.get("obligation") for k in known})
         for r in results:
             self.functions.append({
                 "contract": r["contract"], "target": r["target"], "sha256": r.get("sha256"), "lines": r.get("lines"),
@@ -278,13 +286,9 @@ class PropertyRun:
                                    "note": "model could not be reified", "detail": o.get("detail"),
                                    "witness_error": o.get("witness_error")}, f, indent=1)
                 confirmed = bool(verdict and verdict.get("status") == "ok" and verdict.get("violated"))
-                if not confirmed and r.get("fuzz_job") and r["contract"] not in self._fuzzed:
-                    # bounded native search on the real function for a concrete counterexample of this contract
-                    job = dict(r["fuzz_job"], budget_s=30 if self.tier == "quick" else 180)
-                    fr = run_fuzz(job, path + ".fuzzjob")
-                    self._fuzzed[r["contract"]] = fr
-                    rec["fuzz"] = fr.get("stats") or fr.get("error")
                 fr = self._fuzzed.get(r["contract"])
+                if fr is not None:
+                    rec["fuzz"] = fr.get("stats") or fr.get("error")
                 if not confirmed and fr and fr.get("found"):
                     w = fr["witness"]
                     w["note"] = ("found by bounded native search after the deductive check produced a counter-model "
@@ -312,6 +316,38 @@ class PropertyRun:
                     annotate(path, verdict, "counter-model not confirmed natively; obligation not recorded as proved before")
                     self.undecided.append({"obligation": o["name"], "reason": "counter-model not confirmed natively",
                                            "replay": verdict})
+
+    def prefuzz(self, results, known_ids):
+        from concurrent.futures import ThreadPoolExecutor
+        todo = []
+        for r in results:
+            if r.get("crash") or r["error"] or not r.get("fuzz_job"):
+                continue
+            if any(o["status"] == "failed" and o["name"] not in known_ids for o in r["obligations"]):
+                todo.append(r)
+
+        # at most 4 contracts are searched (distinct target functions first), each with several seeds in parallel
+        todo.sort(key=lambda r: (sum(1 for q in todo if q["target"] == r["target"] and q["contract"] < r["contract"]), r["contract"]))
+        todo = todo[:4]
+        seeds = 4 if self.tier == "quick" else 8
+        jobs = [(r, k) for r in todo for k in range(seeds)]
+
+        def one(item):
+            r, k = item
+            job = dict(r["fuzz_job"], budget_s=30 if self.tier == "quick" else 120, seed=self.seed * 100 + k)
+            path = os.path.join(ROOT, "replays", self.pid,
+                                r["contract"].replace("/", "_").replace(" ", "_") + f".seed{k}.fuzzjob")
+            return r["contract"], run_fuzz(job, path)
+        if jobs:
+            with ThreadPoolExecutor(max_workers=16) as ex:
+                for name, fr in ex.map(one, jobs):
+                    prev = self._fuzzed.get(name)
+                    if prev is None or (fr.get("found") and not prev.get("found")):
+                        if prev is not None and fr.get("stats") and prev.get("stats"):
+                            fr["stats"]["checked"] = fr["stats"].get("checked", 0) + prev["stats"].get("checked", 0)
+                        self._fuzzed[name] = fr
+                    elif fr.get("stats") and prev.get("stats"):
+                        prev["stats"]["checked"] = prev["stats"].get("checked", 0) + fr["stats"].get("checked", 0)
 
     def crosscheck(self, results, budget_s):
         """E3: the contracts evaluated natively on generated inputs (tested, not proved). A contract that fails
